@@ -718,7 +718,10 @@ def cell_statements(old, new, desc, twin=False):
     ridx = set(changed)
     for al in new["aliases"]:
         o = next((x for x in old["aliases"] if x["name"] == al["name"] and x["mod"] == al["mod"]), None)
-        if o is None or o["target"] != al["target"] or al["target"] in ridx or o.get("pclone") != al.get("pclone"):
+        # (a module-level modifier clone keeps the version its function had when the statement ran - by construction of
+        # clone_with, not judged - so whoever edits anything re-runs the statements that make such clones)
+        if (o is None or o["target"] != al["target"] or al["target"] in ridx or o.get("pclone") != al.get("pclone")
+                or al.get("pclone") is not None):
             out.append((al["mod"], "%s = %s%s\n" % (al["name"], new["nodes"][al["target"]]["name"],
                                                    ".partial(%d)" % al["pclone"] if al.get("pclone") is not None else ""), al["name"]))
     if desc.get("var") is not None:
@@ -998,7 +1001,13 @@ def apply_edit(rng, prog, kind=None, force_var=None, force_node=None):
                 al["pclone"] += rng.randint(1, 5)
                 users = [i for i, nd in enumerate(nodes) if any(c.get("alias") == al["name"] for c in nd["calls"])]
                 desc["alias"] = al["name"]
-                return done(None, changed=[])
+                # (the clone is program text of its module: none of its users is re-defined, but whoever pins a version
+                # above one of them bumps it - that is their contract)
+                p2, d2 = done(None, changed=[])
+                for i in users:
+                    d2["bumped"] = sorted(set(d2["bumped"]) | set(bump_explicit_above(p, node=i)))
+                d2["changed_defs"] = sorted(set(d2["bumped"]))
+                return p2, d2
     if kind == "pswap":  # (aimed use only) the parameters x and y exchange their names
         for i in cand:
             if nodes[i]["kind"] in ("memento", "plain") and len(nodes[i]["params"]) > 1:
@@ -1075,7 +1084,8 @@ def apply_edit(rng, prog, kind=None, force_var=None, force_node=None):
         for i1 in rng.sample(range(len(als)), len(als)):
             for i2 in range(len(als)):
                 a1, a2 = als[i1], als[i2]
-                if i1 == i2 or a1["mod"] != a2["mod"] or a1["target"] == a2["target"] or a1.get("clone") or a2.get("clone"):
+                if (i1 == i2 or a1["mod"] != a2["mod"] or a1["target"] == a2["target"] or a1.get("clone") or a2.get("clone")
+                        or a1.get("pclone") is not None or a2.get("pclone") is not None or a1.get("partial") or a2.get("partial")):
                     continue
                 users = [i for i, nd in enumerate(nodes) if any(c.get("alias") in (a1["name"], a2["name"]) for c in nd["calls"])]
                 if not users or max(users) >= min(a1["target"], a2["target"]):
@@ -1100,8 +1110,8 @@ def apply_edit(rng, prog, kind=None, force_var=None, force_node=None):
     if kind == "retarget_alias":
         for al in rng.sample(p["aliases"], len(p["aliases"])):
             users = [i for i, nd in enumerate(nodes) if any(c.get("alias") == al["name"] for c in nd["calls"])]
-            if not users:
-                continue
+            if not users or al.get("pclone") is not None or al.get("partial") or al.get("clone"):
+                continue  # (modifier clones and partial objects keep the kind of function they were made for)
             lo = max(users)
             opts = [t for t in range(lo + 1, len(nodes)) if t != al["target"]
                     and MODS.index(nodes[t]["mod"]) >= MODS.index(al["mod"])
